@@ -199,7 +199,10 @@ def c01(tier, rng, rep, only=None):
             continue
         if impl_p != spec_p:
             # the real constructor contradicts the specification
-            if cmpok == "0" and fam == "float" and c.impl.startswith("ok (f "):
+            # a recorded finding is suppressed only where the model (which mirrors the current
+            # generator) predicts the very same outcome
+            if cmpok == "0" and fam == "float" and c.impl.startswith("ok (f ") and c.impl == c.model \
+                    and "finite" not in runner.DeclInfo(c.decl).vkinds:
                 rep.known_hit("float_nan_passes_bounds",
                               "float bound validators accept NaN when `finite` is not declared")
             else:
@@ -261,7 +264,7 @@ def c07(tier, rng, rep, only=None):
             n_err += 1
             per_variant[c.impl] = per_variant.get(c.impl, 0) + 1
             if c.impl != spec_o:
-                if cmpok == "0" and c.decl.family() == "float":
+                if cmpok == "0" and c.decl.family() == "float" and c.impl == c.model:
                     rep.known_hit("float_nan_passes_bounds",
                                   "a NaN violates a bound's meaning but no bound check fires, so a later variant (or none) is reported")
                 else:
@@ -444,7 +447,17 @@ def c14(tier, rng, rep, only=None):
         _, lo, hi = m.split()
         lo, hi = int(lo), int(hi)
         d.model_range = (lo, hi)
-        if hi - lo + 1 > 65536 or hi < lo:
+        if hi < lo:
+            continue
+        if hi - lo + 1 > 65536:
+            # too wide to enumerate: probe the two ends (offset 0 and offset delta, big-endian)
+            delta = hi - lo
+            nb = min(INT_TYPES[d.inner][1] // 8, (delta.bit_length() + 7) // 8)
+            be = [(delta >> (8 * (nb - 1 - i))) & 0xff for i in range(nb)]
+            mid = [(delta // 2 >> (8 * (nb - 1 - i))) & 0xff for i in range(nb)]
+            for bs in ([0] * 16, be, mid, [255] * 16):
+                g.add_ops(d, [("arb", "(b%s)" % "".join(" %d" % b for b in bs))])
+            d.probe = (lo, hi)
             continue
         tlo, thi = ity_min(d.inner), ity_max(d.inner)
         if INT_TYPES[d.inner][1] <= 16:
@@ -456,10 +469,18 @@ def c14(tier, rng, rep, only=None):
         n_cover += 1
         sizes[L] = sizes.get(L, 0) + 1
     g.run_impl()
+    g.run_model()
     n_vals = 0
+    n_probe = 0
     for d in decls:
         if d.id not in g.live or not hasattr(d, "model_range"):
             continue
+        for c in [c for c in g.by_decl[d.id] if c.op == "arb"]:
+            n_probe += 1
+            if c.impl != c.model:
+                lo, hi = d.model_range
+                rep.violation("generator range of %s differs from the valid range [%d, %d]: arbitrary(%s) gives %s, the model %s"
+                              % (d.id, lo, hi, c.arg, c.impl, c.model), case_payload(c, g, {"model_range": [lo, hi]}), no_input=True)
         cs = [c for c in g.by_decl[d.id] if c.op == "arb_cover"]
         if not cs:
             continue
@@ -482,7 +503,7 @@ def c14(tier, rng, rep, only=None):
                           case_payload(c, g, {"model_range": [lo, hi]}), no_input=True)
     rep.coverage.update({"evaluations": n_cover, "distinct_nontrivial": n_cover,
                          "rule": "integer declarations deriving Arbitrary (all 12 inner types, every bound-kind combination, literal and expression bounds incl. shift / arithmetic / MIN / MAX); for every declaration whose range has at most 2^16 elements ALL byte strings of the consumed length go through the real generator and the produced set is compared with the set of values the real constructor accepts and with the model's range",
-                         "values_produced": n_vals, "input_length_histogram": {str(k): v for k, v in sizes.items()},
+                         "values_produced": n_vals, "wide_range_end_probes": n_probe, "input_length_histogram": {str(k): v for k, v in sizes.items()},
                          "exhaustive": True, "declarations": len(decls)})
     if n_cover == 0 and only is None:
         rep.violation("self-check: no declaration was covered", {"kind": "coverage"}, no_input=True)
@@ -1143,6 +1164,84 @@ def c10(tier, rng, rep, only=None):
             rep.violation("self-check: %s never checked" % k, {"kind": "coverage"}, no_input=True)
 
 
+# ------------------------------------------------------------------------------------- C08
+
+KNOWN_REJECT = {
+    "rustc:known:custom_with_closure": ("custom_with_closure_rejected", "a closure given as custom `with` validator is spliced as `#with(value)` without parentheses and never compiles"),
+    "rustc:known:new_unchecked_generics": ("generic_new_unchecked_rejected", "new_unchecked on a generic newtype: the impl block omits the generic parameters"),
+    "rustc:known:into_generic_bounds": ("generic_into_with_bounds_rejected", "derive(Into) on a generic newtype with trait bounds: the bounds are repeated in type position"),
+    "rustc:known:type_param_clash_deserialize": ("type_param_clashes_with_serde_impl", "a type parameter named D / DE / S collides with the generic parameters of the generated serde impls"),
+    "rustc:known:type_param_clash_serialize": ("type_param_clashes_with_serde_impl", "a type parameter named D / DE / S collides with the generic parameters of the generated serde impls"),
+    "rustc:known:untyped_literal_in_display": ("untyped_literal_bound_expression_rejected", "a bound expression made of unsuffixed literals beyond i32 is also spliced into the Display arm where it is typed i32"),
+    "parse:tokens_after_literal": ("leading_literal_expression_rejected", "a bound expression that starts with a literal (`1 << 4`) is parsed as that literal and the rest is refused"),
+}
+
+
+def verdict_run(wsname, decls, features, rep, rng):
+    for d in decls:
+        d.no_run = True
+    g = flows.GuardRun(wsname, decls, features=features)
+    dropped = g.build()
+    g.run_model()
+    return g, dropped
+
+
+def c08(tier, rng, rep, only=None):
+    import verdicts
+    n = 0
+    classes = {}
+    runs = []
+    if only is not None:
+        runs.append(("replay", only, runner.FEATURES_ALL))
+    else:
+        runs.append(("verdict" if tier == "quick" else "verdict_t", verdicts.gen_verdict_decls(rng.fork("v"), tier) +
+                     guardcorpus.build_corpus(rng.fork("g"), "quick")[::7], runner.FEATURES_ALL))
+        runs.append(("verdict_nofeat", verdicts.gen_feature_decls(rng.fork("w"), tier), ["std"]))
+    for wsname, decls, feats in runs:
+        g, dropped = verdict_run(wsname, decls, feats, rep, rng)
+        for d in decls:
+            n += 1
+            mv = g.model_verdict.get(d.id, "missing")
+            impl_rej = d.id in dropped
+            head, _, ref = mv.partition(" ref=")
+            m_rej = head.startswith("reject")
+            cls = head.split()[1] if m_rej else "accept"
+            classes[cls] = classes.get(cls, 0) + 1
+            payload = {"kind": "verdict", "decl": d.to_json(), "decl_rust": runner.decl_module(d, None), "features": feats,
+                       "rustc": (dropped.get(d.id) or ["(compiles)"])[:3], "model": mv, "intended": getattr(d, "expect", None)}
+            if impl_rej != m_rej:
+                # the reference predicate decides which side is wrong
+                ref_says_ok = ref == "1"
+                if impl_rej and ref_says_ok:
+                    rep.violation("well-formed declaration %s is now refused: %s" % (d.id, payload["rustc"][0][:200]), payload)
+                elif (not impl_rej) and not ref_says_ok:
+                    rep.violation("declaration %s must be refused (%s, reference %s) but compiles" % (d.id, cls, ref), payload)
+                else:
+                    rep.violation("model and rustc disagree on %s: model %s, rustc %s" % (d.id, mv, payload["rustc"][0][:160]), payload, no_input=True)
+                continue
+            if impl_rej and ref == "1":
+                k = KNOWN_REJECT.get(cls)
+                if k:
+                    rep.known_hit(k[0], k[1])
+                elif cls in ("rustc:bound_type", "rustc:derive_dependency", "rustc:const_fn_body", "rustc:from_without_new",
+                             "gen:non_finite_literal", "parse:schemars_feature", "parse:serde_feature", "parse:arbitrary_feature",
+                             "parse:regex_feature", "parse:new_unchecked_feature", "traits:from_and_try_from"):
+                    pass        # refusals outside the rule book's scope: ill-typed expressions, rustc's own derive rules, features
+                else:
+                    rep.violation("declaration %s satisfies the reference rules but is refused as %s" % (d.id, cls), payload)
+            if (not impl_rej) and ref not in ("1",):
+                if ref == "0:literal_bounds":
+                    rep.known_hit("empty_literal_range_accepted", "exclusive literal bounds that leave no value between them (e.g. greater = 5, less = 6 on integers) are accepted")
+                else:
+                    rep.violation("declaration %s breaks the reference rule %s but is accepted" % (d.id, ref), payload)
+    rep.coverage.update({"evaluations": n, "distinct_nontrivial": sum(v for k_, v in classes.items() if k_ != "accept"),
+                         "rule": "declarations generated from the attribute grammar: every refusal class of the macro and its near misses (struct shape, attributes, field visibility, unknown / wrong-family / wrong-case names, duplicates, literal bounds in every relative position incl. equal and adjacent, expressions hiding the same contradictions, with/error pairing, the full family x trait x validation matrix with derive dependencies, Arbitrary restrictions, regex literals, const_fn, generics and short type-parameter names) under all features and under std only; three verdicts per declaration: rustc on the real expansion (errors attributed by span), the model's front end, the reference rule book",
+                         "verdict_classes": classes, "exhaustive": False})
+    rep.samples.append({"classes": dict(list(classes.items())[:8])})
+    if only is None and classes.get("accept", 0) < 50:
+        rep.violation("self-check: too few accepted declarations", {"kind": "coverage"}, no_input=True)
+
+
 PROPS = {
     "C01": (["Props/C01.v"], c01, ["bound expressions evaluate without overflow (corpus keeps them in range)",
                                    "user closures are total functions (library of harness/rtgen.py)",
@@ -1169,6 +1268,9 @@ PROPS = {
                                    "the model covers the glue: inner-then-constructor, error path, newtype-only visitor"]),
     "C10": (["Props/C10.v"], c10, ["formats are third-party code (partial); wrap/unwrap of the newtype-struct layer is a parameter with unwrap (wrap x) = x",
                                    "round trip is required only when the inner value itself round-trips in the format"]),
+    "C08": (["Props/C08.v"], c08, ["rustc's verdict is read from cargo JSON diagnostics attributed to declarations by span",
+                                   "typing of bound expressions, derive dependencies and const-fn bodies are rustc rules modelled in Macro/Validate.rustc_checks",
+                                   "the regex crate decides the validity of regex literals (oracle table regex_lib)"]),
     "C06": (["Props/C06.v"], c06, ["the inner type's FromStr is an oracle (its real result is given to the model)",
                                    "`Any`/generic inner types with FromStr are not in the corpus yet"]),
 }
